@@ -36,16 +36,16 @@ impl<'a> WireFormat<'a> for NSEC<'a> {
         let mut type_bit_maps = Vec::new();
 
         while data.len() > *position {
-            let window_block = data[*position];
+            let window_block = *data.get(*position).ok_or(crate::SimpleDnsError::InsufficientData)?;
             *position += 1;
             if type_bit_maps.last().is_some_and(|f: &TypeBitMap<'_>| f.window_block - 1 != window_block) {
                 return Err(crate::SimpleDnsError::AttemptedInvalidOperation);
             }
 
-            let bitmap_length = data[*position];
+            let bitmap_length = *data.get(*position).ok_or(crate::SimpleDnsError::InsufficientData)?;
             *position += 1;
 
-            let bitmap = &data[*position..*position + bitmap_length as usize];
+            let bitmap = data.get(*position..*position + bitmap_length as usize).ok_or(crate::SimpleDnsError::InsufficientData)?;
             *position += bitmap_length as usize;
             
             type_bit_maps.push(TypeBitMap {
